@@ -107,15 +107,15 @@ def domain(E):
             return D.Rotate(domain(E["a"]), M, rotate_around=around)
         # callable returning one matrix per row (as in the library's tests)
         afn = _make_fn(E["angle"], True)
-        var = E["angle"]["var"]
+        names = [E["angle"]["var"]] + ([E["angle"]["var2"]] if E["angle"]["k"] == "affine2" else [])
 
-        def impl(x):
-            ang = afn(x)
+        def impl(*xs):
+            ang = afn(*xs)
             row1 = torch.cat((torch.cos(ang), -torch.sin(ang)), dim=1)
             row2 = torch.cat((torch.sin(ang), torch.cos(ang)), dim=1)
             return torch.stack((row1, row2), dim=1)
         ns = {"impl": impl}
-        exec(f"def fn({var}):\n    return impl({var})\n", ns)
+        exec(f"def fn({', '.join(names)}):\n    return impl({', '.join(names)})\n", ns)
         return D.Rotate(domain(E["a"]), ns["fn"], rotate_around=around)
     if t == "boundary":
         return domain(E["a"]).boundary
